@@ -1,11 +1,1834 @@
-//! C19 — stub (being built).
-use crate::fw::Report;
-use serde_json::Value as J;
+//! C19 — the thread pool and the shared-memory helpers of `egglog-concurrency`
+//! are safe under any interleaving.
+//!
+//! Every case is a *scenario* decoded from the choice stream (a pure function of
+//! the bytes) and executed in a child process (`vcheck --child c19-scenario`),
+//! because a deadlock / abort / use-after-return must not take the harness down.
+//! The OS schedule is the sampled part: a child repeats its scenario `reps` times
+//! and the scenario itself carries spin / yield / sleep perturbations placed inside
+//! OUR task bodies and critical sections.
+//!
+//! Stages (= scenario kinds):
+//!  * `spawn-tree`  ThreadPool::scope / Scope::spawn / nested scopes (free `scope`,
+//!                  `pool.scope`, a scope on a second pool as hash_index does), blocking
+//!                  waits inside workers, panics, nesting chains deeper than
+//!                  MAX_INLINE_SCOPE_HELP_DEPTH (=64, threadpool/mod.rs).
+//!  * `rolock`      ReadOptimizedLock reader/writer mixes over a multi-word record.
+//!  * `cvec`        ConcurrentVec: concurrent push + prefix readers (InternTable pattern),
+//!                  concurrent resize_with + cell access (NotificationList pattern),
+//!                  sequential push/resize_with/read mixes.
+//!  * `pvw`         ParallelVecWriter ranged writes (write_slice / write_contents /
+//!                  write_cell_slice) with prefix readers (row_buffer pattern).
+//!  * `notify`      NotificationList rounds, Notification wait/notify, ResettableOnceLock
+//!                  get_or_update races.
+//!
+//! Deviations from the design note, forced by the real API / framework:
+//!  * one child process per case (the batch = the repetitions of ONE scenario), so a
+//!    watchdog verdict always identifies its culprit and no single re-runs are needed;
+//!  * trees are stored flat (index lists) because serde_json's recursion limit (128)
+//!    is lower than the nesting needed to cross the inline-help limit;
+//!  * the schedule is not a function of the input, so a failing input is memoised in
+//!    the parent (a failure observed once IS a failure) — otherwise the framework's
+//!    post-shrink re-check would downgrade a real race to "non-reproducible".
+//!    `--replay` re-runs the scenario with 20x the repetitions.
 
-pub fn run(_rep: &Report) {}
-pub fn replay(_rep: &Report, _stage: &str, _j: &J) -> i32 {
-    2
+use crate::child::{run_child, ChildJob, ChildResult};
+use crate::choice::{fnv_str, Src};
+use crate::fw::{Outcome, Report, Stage, Tier, Violation};
+use serde::{Deserialize, Serialize};
+use serde_json::{json, Value as J};
+use std::collections::{BTreeMap, BTreeSet};
+use std::sync::atomic::{AtomicBool, AtomicI64, AtomicU32, AtomicU64, AtomicUsize, Ordering};
+use std::sync::{Barrier, Mutex};
+use std::time::Duration;
+
+pub const KNOWN_RESIZE_SIG: &str = "concurrentvec-resize-with-uninit-slots";
+/// threadpool/mod.rs: MAX_INLINE_SCOPE_HELP_DEPTH
+const INLINE_HELP_LIMIT: usize = 64;
+
+// ---------------------------------------------------------------------------
+// scenario description (everything serde: replay files store the Input)
+// ---------------------------------------------------------------------------
+
+/// perturbation placed inside our own task bodies / critical sections
+#[derive(Clone, Copy, Serialize, Deserialize, PartialEq, Debug)]
+pub enum Pt {
+    N,
+    Spin(u16),
+    Yield,
+    /// microseconds
+    Sleep(u16),
 }
-pub fn child(_kind: &str, _payload: &J) -> Option<J> {
-    None
+
+#[derive(Clone, Copy, Serialize, Deserialize, PartialEq, Debug)]
+pub enum Mode {
+    /// spawn the children into the scope this task was spawned in
+    Same,
+    /// open a nested scope with the free function `egglog_concurrency::scope` (what core-relations does)
+    NestFree,
+    /// open a nested scope with `pool.scope` on the same pool
+    NestPool,
+    /// open a nested scope on a second pool (hash_index's INDEX_THREAD_POOL pattern)
+    NestOther,
+}
+
+#[derive(Clone, Copy, Serialize, Deserialize, PartialEq, Debug)]
+pub enum PanicAt {
+    No,
+    /// panic before spawning the children (they are then never spawned)
+    Before,
+    /// panic after spawning the children
+    After,
+}
+
+#[derive(Clone, Serialize, Deserialize)]
+pub struct TNode {
+    pub pre: Pt,
+    pub post: Pt,
+    /// blocking wait: poll (sleeping) until the parent's body has returned; only generated
+    /// when the parent is `Mode::Same` (such a parent never waits, so no deadlock by construction)
+    pub wp: bool,
+    pub mode: Mode,
+    pub panic: PanicAt,
+    pub kids: Vec<u16>,
+}
+
+#[derive(Clone, Serialize, Deserialize)]
+pub struct TreeSc {
+    pub workers: u8,
+    /// size of the second pool (0 = none)
+    pub other: u8,
+    /// outermost scope opened as `pool.install(|| scope(..))` instead of `pool.scope(..)`
+    pub via_install: bool,
+    /// reuse one pool for all repetitions (otherwise a fresh pool per repetition, dropped after it)
+    pub reuse: bool,
+    /// node 0 is the root callback of the outermost scope
+    pub nodes: Vec<TNode>,
+}
+
+#[derive(Clone, Serialize, Deserialize)]
+pub struct RoThread {
+    pub iters: u16,
+    /// 0 = pure reader, k = every k-th operation is a write
+    pub write_every: u8,
+    pub hold: Pt,
+    pub gap: Pt,
+}
+#[derive(Clone, Serialize, Deserialize)]
+pub struct RoLockSc {
+    pub threads: Vec<RoThread>,
+}
+
+#[derive(Clone, Serialize, Deserialize)]
+pub struct Pusher {
+    pub n: u16,
+    pub gap: Pt,
+    /// read back `read()[index]` right after the push (InternTable::intern does)
+    pub verify: bool,
+}
+#[derive(Clone, Serialize, Deserialize)]
+pub struct CvecPushSc {
+    pub cap: u16,
+    pub pushers: Vec<Pusher>,
+    pub readers: u8,
+    pub reader_gap: Pt,
+}
+
+#[derive(Clone, Serialize, Deserialize)]
+pub struct CvecCellsSc {
+    /// 0 = ConcurrentVec::new()
+    pub cap: u16,
+    pub threads: Vec<Vec<u16>>,
+    pub gap: Pt,
+}
+
+#[derive(Clone, Copy, Serialize, Deserialize, PartialEq, Debug)]
+pub enum SeqOp {
+    Push(u64),
+    Resize(u16, u64),
+    Read,
+}
+#[derive(Clone, Serialize, Deserialize)]
+pub struct CvecSeqSc {
+    pub cap: u16,
+    pub ops: Vec<SeqOp>,
+}
+
+#[derive(Clone, Serialize, Deserialize)]
+pub struct PvwWrite {
+    pub len: u16,
+    /// write_contents(ExactSizeIterator) instead of write_slice / write_cell_slice
+    pub iter: bool,
+}
+#[derive(Clone, Serialize, Deserialize)]
+pub struct PvwSc {
+    pub prefix: u16,
+    pub extra_cap: u16,
+    /// element type Cell<u64> + write_cell_slice (the row_buffer caller) instead of u64
+    pub cell: bool,
+    pub writers: Vec<Vec<PvwWrite>>,
+    pub readers: u8,
+    /// read the own completed write back through unsafe_read_access (get_row_unchecked pattern)
+    pub verify_own: bool,
+    pub gap: Pt,
+}
+
+#[derive(Clone, Serialize, Deserialize)]
+pub struct NListSc {
+    /// round -> thread -> ids notified; `reset()` is called between rounds, never concurrently
+    pub rounds: Vec<Vec<Vec<u16>>>,
+    pub gap: Pt,
+}
+#[derive(Clone, Serialize, Deserialize)]
+pub struct NotifSc {
+    /// per waiter: true = wait_with_timeout(60 s), false = wait()
+    pub waiters: Vec<bool>,
+    pub delay: Pt,
+    pub notifiers: u8,
+}
+#[derive(Clone, Serialize, Deserialize)]
+pub struct OnceSc {
+    pub epochs: u8,
+    pub updaters: u8,
+    pub getters: u8,
+    pub hold: Pt,
+}
+
+#[derive(Clone, Serialize, Deserialize)]
+pub enum Scenario {
+    Tree(TreeSc),
+    RoLock(RoLockSc),
+    CvecPush(CvecPushSc),
+    CvecCells(CvecCellsSc),
+    CvecSeq(CvecSeqSc),
+    Pvw(PvwSc),
+    NList(NListSc),
+    Notif(NotifSc),
+    Once(OnceSc),
+}
+
+impl Scenario {
+    pub fn kind(&self) -> &'static str {
+        match self {
+            Scenario::Tree(_) => "spawn-tree",
+            Scenario::RoLock(_) => "rolock",
+            Scenario::CvecPush(_) => "cvec-push",
+            Scenario::CvecCells(_) => "cvec-cells",
+            Scenario::CvecSeq(_) => "cvec-seq",
+            Scenario::Pvw(_) => "pvw",
+            Scenario::NList(_) => "nlist",
+            Scenario::Notif(_) => "notification",
+            Scenario::Once(_) => "oncelock",
+        }
+    }
+}
+
+#[derive(Clone, Serialize, Deserialize)]
+pub struct Case {
+    pub sc: Scenario,
+    /// number of resize_with operations the generator steered away from the known trigger
+    #[serde(default)]
+    pub steered: u32,
+}
+
+// ---------------------------------------------------------------------------
+// decoders
+// ---------------------------------------------------------------------------
+
+fn dec_pt(src: &mut Src, sleep_budget: &mut i64) -> Pt {
+    match src.pick_weighted(&[4, 4, 2, 2]) {
+        0 => Pt::N,
+        1 => Pt::Spin(src.range(1, 3000) as u16),
+        2 => Pt::Yield,
+        _ => {
+            let us = src.range(20, 600);
+            if *sleep_budget >= us {
+                *sleep_budget -= us;
+                Pt::Sleep(us as u16)
+            } else {
+                Pt::Yield
+            }
+        }
+    }
+}
+
+/// perturbation that is applied `times` times: sleeps are scaled so that one thread sleeps <= ~3 ms in total
+fn dec_rep_pt(src: &mut Src, times: usize) -> Pt {
+    match src.pick_weighted(&[4, 4, 2, 1]) {
+        0 => Pt::N,
+        1 => Pt::Spin(src.range(1, 600) as u16),
+        2 => Pt::Yield,
+        _ => {
+            let us = src.range(20, 300).min(3000 / times.max(1) as i64);
+            if us >= 20 { Pt::Sleep(us as u16) } else { Pt::Yield }
+        }
+    }
+}
+
+fn dec_workers(src: &mut Src) -> u8 {
+    match src.below(4) {
+        0 => 1,
+        1 => src.range(2, 4) as u8,
+        _ => src.range(1, 16) as u8,
+    }
+}
+
+struct TreeGen<'a, 'b> {
+    src: &'a mut Src<'b>,
+    nodes: Vec<TNode>,
+    budget: usize,
+    sleep: i64,
+    panics: bool,
+    other: bool,
+}
+
+impl TreeGen<'_, '_> {
+    fn node(&mut self, depth_left: usize, parent_same: bool) -> u16 {
+        let id = self.nodes.len();
+        let pre = dec_pt(self.src, &mut self.sleep);
+        let post = if self.src.chance(1, 4) { dec_pt(self.src, &mut self.sleep) } else { Pt::N };
+        let wp = parent_same && self.src.chance(1, 6);
+        let mode = if depth_left == 0 {
+            Mode::Same
+        } else {
+            match self.src.pick_weighted(&[11, 4, 3, if self.other { 2 } else { 0 }]) {
+                0 => Mode::Same,
+                1 => Mode::NestFree,
+                2 => Mode::NestPool,
+                _ => Mode::NestOther,
+            }
+        };
+        let panic = if self.panics && self.src.chance(1, 10) {
+            if self.src.bool() { PanicAt::Before } else { PanicAt::After }
+        } else {
+            PanicAt::No
+        };
+        self.nodes.push(TNode { pre, post, wp, mode, panic, kids: vec![] });
+        let want = if depth_left == 0 { 0 } else { self.src.pick_weighted(&[3, 3, 4, 3, 2, 1, 1, 1, 1]) };
+        let mut kids = vec![];
+        for _ in 0..want {
+            if self.budget == 0 {
+                break;
+            }
+            self.budget -= 1;
+            kids.push(self.node(depth_left - 1, mode == Mode::Same));
+        }
+        self.nodes[id].kids = kids;
+        id as u16
+    }
+}
+
+fn dec_tree(src: &mut Src, max_nodes: usize) -> TreeSc {
+    let chain = src.chance(1, 6);
+    if chain {
+        // a chain of nested scopes deeper than the inline-help limit (depth 6 / fan-out 8 do not apply here)
+        let workers = src.range(1, 3) as u8;
+        let len = src.range(58, 84) as usize;
+        let free = src.bool();
+        let bottom_panics = src.chance(1, 4);
+        let mut sleep = 3000i64;
+        let mut nodes: Vec<TNode> = vec![];
+        for i in 0..len {
+            let id = nodes.len();
+            let pre = if src.chance(1, 8) { dec_pt(src, &mut sleep) } else { Pt::N };
+            nodes.push(TNode { pre, post: Pt::N, wp: false, mode: if free { Mode::NestFree } else { Mode::NestPool }, panic: PanicAt::No, kids: vec![] });
+            if src.chance(1, 5) {
+                // a leaf sibling
+                let lid = nodes.len() as u16;
+                nodes.push(TNode { pre: Pt::Spin(200), post: Pt::N, wp: false, mode: Mode::Same, panic: PanicAt::No, kids: vec![] });
+                nodes[id].kids.push(lid);
+            }
+            let next = nodes.len() as u16;
+            nodes[id].kids.push(next);
+            if i + 1 == len {
+                nodes.push(TNode {
+                    pre: Pt::Spin(100),
+                    post: Pt::N,
+                    wp: false,
+                    mode: Mode::Same,
+                    panic: if bottom_panics { PanicAt::After } else { PanicAt::No },
+                    kids: vec![],
+                });
+            }
+        }
+        return TreeSc { workers, other: 0, via_install: src.bool(), reuse: src.bool(), nodes };
+    }
+    let workers = dec_workers(src);
+    let other = if src.chance(1, 4) { src.range(1, 4) as u8 } else { 0 };
+    let via_install = src.chance(1, 3);
+    let reuse = src.bool();
+    let panics = src.chance(1, 3);
+    let mut g = TreeGen { src, nodes: vec![], budget: max_nodes, sleep: 6_000, panics, other: other > 0 };
+    g.node(6, false);
+    let nodes = g.nodes;
+    TreeSc { workers, other, via_install, reuse, nodes }
+}
+
+fn dec_rolock(src: &mut Src) -> RoLockSc {
+    let n = 1 + src.below(10);
+    let mut threads = vec![];
+    for _ in 0..n {
+        let iters = src.range(1, 250) as u16;
+        threads.push(RoThread {
+            iters,
+            write_every: *src.pick(&[0u8, 1, 0, 2, 3, 5, 10, 50]),
+            hold: dec_rep_pt(src, 2 * iters as usize),
+            gap: dec_rep_pt(src, iters as usize),
+        });
+    }
+    RoLockSc { threads }
+}
+
+/// Model of ConcurrentVec's backing-vector length, used ONLY to recognise the known
+/// `resize_with` defect: `resize_with(n, f)` writes slot n-1 and the slots it appends to the
+/// backing vector, but never the slots in [head, min(backing_len, n-1)) that already exist in
+/// the backing vector. Those hold uninitialised memory when the backing vector was grown by
+/// `push` (MaybeUninit::uninit()), or the stale value of an EARLIER resize_with's closure when
+/// it was grown by resize_with (second manifestation of the same root cause, found by this
+/// generator: push; resize_with(6,a); resize_with(13,b) leaves slots 6,7 = a).
+/// Returns per-op "this resize_with skips at least one slot".
+pub fn seq_triggers(ops: &[SeqOp]) -> Vec<bool> {
+    let (mut len, mut head) = (0usize, 0usize);
+    let mut res = vec![];
+    for op in ops {
+        match *op {
+            SeqOp::Push(_) => {
+                if head >= len {
+                    len = (head + 1).next_power_of_two();
+                }
+                head += 1;
+                res.push(false);
+            }
+            SeqOp::Resize(n, _) => {
+                let n = n as usize;
+                if n <= head {
+                    res.push(false);
+                    continue;
+                }
+                res.push(head < len.min(n - 1));
+                if n - 1 >= len {
+                    len = n.next_power_of_two();
+                }
+                head = n;
+            }
+            SeqOp::Read => res.push(false),
+        }
+    }
+    res
+}
+
+fn dec_cvec(src: &mut Src) -> (Scenario, u32) {
+    match src.pick_weighted(&[5, 3, 3]) {
+        0 => {
+            let cap = *src.pick(&[1u16, 2, 4, 16, 128, 512]);
+            let np = 1 + src.below(8);
+            let mut pushers = vec![];
+            for _ in 0..np {
+                let n = src.range(1, 300) as u16;
+                pushers.push(Pusher { n, gap: dec_rep_pt(src, n as usize), verify: src.bool() });
+            }
+            let readers = src.below(5) as u8;
+            let reader_gap = match src.below(3) {
+                0 => Pt::N,
+                1 => Pt::Spin(src.range(1, 200) as u16),
+                _ => Pt::Yield,
+            };
+            (Scenario::CvecPush(CvecPushSc { cap, pushers, readers, reader_gap }), 0)
+        }
+        1 => {
+            let cap = *src.pick(&[0u16, 1, 4, 64]);
+            let nt = 1 + src.below(8);
+            let hi = *src.pick(&[8usize, 40, 200, 700]);
+            let mut threads = vec![];
+            for _ in 0..nt {
+                let k = 1 + src.below(60);
+                threads.push((0..k).map(|_| src.below(hi) as u16).collect());
+            }
+            (Scenario::CvecCells(CvecCellsSc { cap, threads, gap: dec_rep_pt(src, 60) }), 0)
+        }
+        _ => {
+            let cap = *src.pick(&[1u16, 2, 8, 128]);
+            let n = 1 + src.below(24);
+            let mut ops: Vec<SeqOp> = vec![];
+            let mut steered = 0;
+            let mut head = 0usize;
+            let mut next_val = 100u64;
+            for _ in 0..n {
+                match src.pick_weighted(&[5, 3, 2]) {
+                    0 => {
+                        ops.push(SeqOp::Push(next_val));
+                        next_val += 1;
+                        head += 1;
+                    }
+                    1 => {
+                        let target = (head as i64 + src.range(-2, 12)).clamp(0, 400) as u16;
+                        let fill = 7 + 1000 * (1 + src.below(9) as u64);
+                        ops.push(SeqOp::Resize(target, fill));
+                        if *seq_triggers(&ops).last().unwrap() {
+                            // steer away from the known defect: grow by exactly one slot (never a trigger)
+                            ops.pop();
+                            ops.push(SeqOp::Resize(head as u16 + 1, fill));
+                            debug_assert!(!*seq_triggers(&ops).last().unwrap());
+                            steered += 1;
+                            head += 1;
+                        } else {
+                            head = head.max(target as usize);
+                        }
+                    }
+                    _ => ops.push(SeqOp::Read),
+                }
+            }
+            ops.push(SeqOp::Read);
+            (Scenario::CvecSeq(CvecSeqSc { cap, ops }), steered)
+        }
+    }
+}
+
+fn dec_pvw(src: &mut Src) -> PvwSc {
+    let prefix = src.below(65) as u16;
+    let extra_cap = *src.pick(&[0u16, 0, 4, 64, 2048]);
+    let cell = src.bool();
+    let nw = 1 + src.below(8);
+    let mut writers = vec![];
+    for _ in 0..nw {
+        let k = 1 + src.below(30);
+        writers.push((0..k).map(|_| PvwWrite { len: src.below(49) as u16, iter: src.chance(1, 3) }).collect());
+    }
+    let readers = if prefix > 0 { src.below(4) as u8 } else { 0 };
+    PvwSc { prefix, extra_cap, cell, writers, readers, verify_own: src.bool(), gap: dec_rep_pt(src, 30) }
+}
+
+fn dec_notify(src: &mut Src) -> Scenario {
+    match src.pick_weighted(&[5, 3, 3]) {
+        0 => {
+            let nr = 1 + src.below(10);
+            let hi = *src.pick(&[4usize, 30, 140, 600]);
+            let nt = 1 + src.below(8);
+            let mut rounds = vec![];
+            for _ in 0..nr {
+                // "hot" round: every thread notifies the same ids in the same order (the contended case
+                // the implementation is optimised for: "notifying a table that has already been notified")
+                let hot = src.bool();
+                let mut ts: Vec<Vec<u16>> = vec![];
+                for t in 0..nt {
+                    if hot && t > 0 {
+                        let first = ts[0].clone();
+                        ts.push(first);
+                        continue;
+                    }
+                    let k = src.below(30);
+                    ts.push((0..k).map(|_| src.below(hi) as u16).collect());
+                }
+                rounds.push(ts);
+            }
+            Scenario::NList(NListSc { rounds, gap: dec_rep_pt(src, 40) })
+        }
+        1 => {
+            let nw = 1 + src.below(8);
+            let waiters = (0..nw).map(|_| src.chance(1, 3)).collect();
+            let mut sleep = 2000i64;
+            Scenario::Notif(NotifSc { waiters, delay: dec_pt(src, &mut sleep), notifiers: 1 + src.below(3) as u8 })
+        }
+        _ => {
+            let mut sleep = 1000i64;
+            Scenario::Once(OnceSc { epochs: 1 + src.below(4) as u8, updaters: 1 + src.below(8) as u8, getters: src.below(4) as u8, hold: dec_pt(src, &mut sleep) })
+        }
+    }
+}
+
+// ---------------------------------------------------------------------------
+// static analysis of a scenario (expected behaviour, classes, non-trivial rule)
+// ---------------------------------------------------------------------------
+
+pub struct TreeFacts {
+    pub parent: Vec<Option<usize>>,
+    /// node is expected to run (not below a panic-before node)
+    pub exec: Vec<bool>,
+    pub expect_panic: bool,
+    /// 1 (outermost scope) + max number of nested-scope nodes with children on an executed path
+    pub nesting: usize,
+    pub tasks: usize,
+    pub depth: usize,
+    pub waits: usize,
+    pub cross: bool,
+}
+
+pub fn tree_facts(t: &TreeSc) -> TreeFacts {
+    let n = t.nodes.len();
+    let mut f = TreeFacts { parent: vec![None; n], exec: vec![false; n], expect_panic: false, nesting: 1, tasks: 0, depth: 0, waits: 0, cross: false };
+    // iterative DFS: (node, nesting-so-far, depth)
+    let mut stack = vec![(0usize, 1usize, 0usize)];
+    f.exec[0] = true;
+    while let Some((i, nest, d)) = stack.pop() {
+        let nd = &t.nodes[i];
+        f.depth = f.depth.max(d);
+        if i != 0 {
+            f.tasks += 1;
+        }
+        if nd.panic != PanicAt::No {
+            f.expect_panic = true;
+        }
+        if nd.wp || matches!(nd.pre, Pt::Sleep(_)) || matches!(nd.post, Pt::Sleep(_)) {
+            f.waits += 1;
+        }
+        if nd.panic == PanicAt::Before {
+            for &k in &nd.kids {
+                f.parent[k as usize] = Some(i);
+            }
+            continue;
+        }
+        let nested = nd.mode != Mode::Same && !nd.kids.is_empty();
+        if nested && nd.mode == Mode::NestOther {
+            f.cross = true;
+        }
+        let nn = nest + nested as usize;
+        f.nesting = f.nesting.max(nn);
+        for &k in &nd.kids {
+            f.parent[k as usize] = Some(i);
+            f.exec[k as usize] = true;
+            stack.push((k as usize, nn, d + 1));
+        }
+    }
+    f
+}
+
+fn classify(sc: &Scenario, out: &mut Outcome) {
+    match sc {
+        Scenario::Tree(t) => {
+            let f = tree_facts(t);
+            out.class(match t.workers {
+                1 => "tree:workers=1",
+                2..=4 => "tree:workers=2-4",
+                _ => "tree:workers=5-16",
+            });
+            out.class(match f.nesting {
+                1 => "tree:nesting=1",
+                2 => "tree:nesting=2",
+                3..=6 => "tree:nesting=3-6",
+                7..=INLINE_HELP_LIMIT => "tree:nesting=7-64",
+                _ => "tree:nesting>64(inline-help-limit)",
+            });
+            if f.tasks > t.workers as usize {
+                out.class("tree:tasks>workers");
+            }
+            if f.expect_panic {
+                out.class("tree:expects-panic");
+            }
+            if f.waits > 0 {
+                out.class("tree:blocking-wait-in-worker");
+            }
+            if f.cross {
+                out.class("tree:nested-scope-on-second-pool");
+            }
+            if f.depth >= 4 {
+                out.class("tree:depth>=4");
+            }
+            out.count("tree_tasks", f.tasks as u64);
+            out.nontrivial = f.nesting >= 2 && f.tasks > t.workers as usize;
+        }
+        Scenario::RoLock(s) => {
+            let writers = s.threads.iter().filter(|t| t.write_every > 0).count();
+            let readers = s.threads.iter().filter(|t| t.write_every != 1).count();
+            out.class(format!("rolock:writers={}", writers.min(3)).replace("=3", ">=3"));
+            if writers >= 1 && readers >= 1 && s.threads.len() >= 2 {
+                out.class("rolock:readers-vs-writers");
+            }
+            if writers >= 2 {
+                out.class("rolock:writers-vs-writers");
+            }
+            out.nontrivial = s.threads.len() >= 2 && writers >= 1;
+        }
+        Scenario::CvecPush(s) => {
+            let total: usize = s.pushers.iter().map(|p| p.n as usize).sum();
+            let conc = s.pushers.len() + s.readers as usize >= 2;
+            out.class("cvec:concurrent-push");
+            if s.readers > 0 {
+                out.class("cvec:push-with-prefix-readers");
+            }
+            // the backing Vec's LENGTH starts at 0 whatever the capacity: it is resized (under the exclusive
+            // lock) at every power-of-two boundary; it is reallocated once the capacity is exceeded
+            if total >= 2 && conc {
+                out.class("cvec:resize-under-concurrent-access");
+            }
+            if total > (s.cap as usize).next_power_of_two() && conc {
+                out.class("cvec:realloc-under-concurrent-access");
+            }
+            out.nontrivial = conc;
+        }
+        Scenario::CvecCells(s) => {
+            out.class("cvec:concurrent-resize_with(NotificationList-pattern)");
+            out.nontrivial = s.threads.len() >= 2;
+        }
+        Scenario::CvecSeq(s) => {
+            out.class("cvec:sequential-push/resize_with/read");
+            if s.ops.iter().any(|o| matches!(o, SeqOp::Resize(..))) {
+                out.class("cvec:seq-has-resize_with");
+            }
+            if seq_triggers(&s.ops).iter().any(|b| *b) {
+                out.class("cvec:seq-known-trigger(golden)");
+            }
+            out.nontrivial = false;
+        }
+        Scenario::Pvw(s) => {
+            let total: usize = s.writers.iter().flatten().map(|w| w.len as usize).sum();
+            out.class(if s.cell { "pvw:Cell<u64>/write_cell_slice" } else { "pvw:u64/write_slice" });
+            if s.writers.len() >= 2 {
+                out.class("pvw:>=2-writers");
+            }
+            if s.readers > 0 {
+                out.class("pvw:prefix-readers");
+            }
+            if total > s.extra_cap as usize && s.writers.len() + s.readers as usize >= 2 {
+                out.class("pvw:reallocation-under-concurrent-access");
+            }
+            out.nontrivial = s.writers.len() + s.readers as usize >= 2;
+        }
+        Scenario::NList(s) => {
+            out.class("notify:NotificationList");
+            let conc = s.rounds.iter().any(|r| r.iter().filter(|t| !t.is_empty()).count() >= 2);
+            if s.rounds.len() >= 2 {
+                out.class("notify:nlist-multi-round");
+            }
+            out.nontrivial = conc;
+        }
+        Scenario::Notif(s) => {
+            out.class("notify:Notification");
+            out.nontrivial = s.waiters.len() + s.notifiers as usize >= 2;
+        }
+        Scenario::Once(s) => {
+            out.class("notify:ResettableOnceLock");
+            out.nontrivial = s.updaters as usize + s.getters as usize >= 2;
+        }
+    }
+}
+
+// ---------------------------------------------------------------------------
+// the stage
+// ---------------------------------------------------------------------------
+
+#[derive(Clone, Copy, PartialEq)]
+pub enum Kind {
+    Tree,
+    RoLock,
+    Cvec,
+    Pvw,
+    Notify,
+}
+
+pub struct St<'a> {
+    pub rep: &'a Report,
+    pub kind: Kind,
+    pub reps: u32,
+    pub max_nodes: usize,
+}
+
+/// failures already observed in this process (input hash -> violation): the schedule is
+/// sampled, so a failure that happened once is reported again for the same input
+static MEMO: Mutex<BTreeMap<u64, (String, String)>> = Mutex::new(BTreeMap::new());
+static FAIL_SEEN: AtomicBool = AtomicBool::new(false);
+/// child runs still allowed for shrinking after the first hard failure
+static POST_FAIL_BUDGET: AtomicI64 = AtomicI64::new(120);
+
+const T_FIRST: Duration = Duration::from_secs(10);
+const T_RETRY: Duration = Duration::from_secs(90);
+
+fn squash(s: &str) -> String {
+    // stable key: digit runs -> '#', whitespace -> '_', bounded length
+    let mut out = String::new();
+    let mut in_digits = false;
+    for c in s.chars() {
+        if c.is_ascii_digit() {
+            if !in_digits {
+                out.push('#');
+            }
+            in_digits = true;
+            continue;
+        }
+        in_digits = false;
+        out.push(if c.is_whitespace() { '_' } else { c });
+        if out.len() >= 70 {
+            break;
+        }
+    }
+    out
+}
+
+impl St<'_> {
+    fn hard(&self, sig: &str) -> bool {
+        self.rep.is_known(sig).is_none()
+    }
+
+    fn execute(&self, c: &Case, out: &mut Outcome) {
+        let kind = c.sc.kind();
+        let payload = json!({"sc": c.sc, "reps": self.reps});
+        let mut timeout = T_FIRST;
+        for attempt in 0..2 {
+            let r = run_child(ChildJob { kind: "c19-scenario", payload: payload.clone(), env: vec![], timeout, cwd: None });
+            match r {
+                ChildResult::Ok(j) => {
+                    if let Some(st) = j.get("stats").and_then(|s| s.as_object()) {
+                        for (k, v) in st {
+                            if let Some(n) = v.as_u64() {
+                                if let Some(cl) = k.strip_prefix("class:") {
+                                    if n > 0 {
+                                        out.class(cl.to_string());
+                                    }
+                                } else {
+                                    out.count(k.clone(), n);
+                                }
+                            }
+                        }
+                    }
+                    if j["ok"].as_bool() == Some(true) {
+                        out.count("repetitions", self.reps as u64);
+                    } else if let Some(sig) = j["sig"].as_str() {
+                        out.fail(sig.to_string(), format!("{} (scenario kind {kind}, {} repetitions per child)", j["detail"].as_str().unwrap_or(""), self.reps));
+                    } else {
+                        self.rep.inconclusive(format!("child verdict not understood: {j}"));
+                    }
+                    return;
+                }
+                ChildResult::Crashed { status, stderr } => {
+                    let last = stderr.lines().rev().find(|l| !l.trim().is_empty()).unwrap_or("");
+                    out.fail(format!("crash:{kind}:{}", squash(&format!("{status}:{last}"))), format!("child process died ({status}) while running the scenario; stderr tail:\n{stderr}"));
+                    return;
+                }
+                ChildResult::Quiescent { stderr } => {
+                    out.fail(
+                        format!("deadlock:{kind}"),
+                        format!("scenario did not finish within {timeout:?} and every thread of the child was asleep with no CPU progress (deadlock / lost wake-up / lost job); stderr tail:\n{stderr}"),
+                    );
+                    return;
+                }
+                ChildResult::Busy => {
+                    if attempt == 0 {
+                        out.count("busy_retries", 1);
+                        timeout = T_RETRY;
+                        continue;
+                    }
+                    out.class("inconclusive-busy");
+                    self.rep.inconclusive(format!("{kind} scenario still computing after {T_RETRY:?}"));
+                    return;
+                }
+                ChildResult::Broken(m) => {
+                    out.class("inconclusive-broken");
+                    self.rep.inconclusive(format!("child protocol error: {m}"));
+                    return;
+                }
+            }
+        }
+    }
+}
+
+impl Stage for St<'_> {
+    type Input = Case;
+    fn name(&self) -> &'static str {
+        match self.kind {
+            Kind::Tree => "spawn-tree",
+            Kind::RoLock => "rolock",
+            Kind::Cvec => "cvec",
+            Kind::Pvw => "pvw",
+            Kind::Notify => "notify",
+        }
+    }
+    fn decode(&self, src: &mut Src) -> Case {
+        match self.kind {
+            Kind::Tree => Case { sc: Scenario::Tree(dec_tree(src, self.max_nodes)), steered: 0 },
+            Kind::RoLock => Case { sc: Scenario::RoLock(dec_rolock(src)), steered: 0 },
+            Kind::Cvec => {
+                let (sc, steered) = dec_cvec(src);
+                Case { sc, steered }
+            }
+            Kind::Pvw => Case { sc: Scenario::Pvw(dec_pvw(src)), steered: 0 },
+            Kind::Notify => Case { sc: dec_notify(src), steered: 0 },
+        }
+    }
+    fn check(&self, c: &Case) -> Outcome {
+        let text = serde_json::to_string(&c.sc).unwrap_or_default();
+        let key = fnv_str(&text);
+        let mut out = Outcome::new(key);
+        classify(&c.sc, &mut out);
+        if c.steered > 0 {
+            out.count("excluded_known_resize_trigger", 1);
+        }
+        if let Some((sig, detail)) = MEMO.lock().unwrap().get(&key).cloned() {
+            out.fail(sig, detail);
+            return out;
+        }
+        if FAIL_SEEN.load(Ordering::SeqCst) && POST_FAIL_BUDGET.fetch_sub(1, Ordering::SeqCst) <= 0 {
+            // a hard failure is already being reported: stop spending child runs (bounds shrinking time)
+            out.class("not-run-after-first-failure");
+            out.nontrivial = false;
+            return out;
+        }
+        self.execute(c, &mut out);
+        let mut all: Vec<&Violation> = out.soft.iter().collect();
+        if let Some(v) = &out.fail {
+            all.push(v);
+        }
+        if let Some(v) = all.into_iter().find(|v| self.hard(&v.sig)) {
+            FAIL_SEEN.store(true, Ordering::SeqCst);
+            if v.sig.starts_with("deadlock:") {
+                // every further deadlocking candidate costs a full watchdog period
+                POST_FAIL_BUDGET.fetch_sub(40, Ordering::SeqCst);
+            }
+            MEMO.lock().unwrap().insert(key, (v.sig.clone(), v.detail.clone()));
+        }
+        out
+    }
+}
+
+fn golden_resize_case() -> Case {
+    let mut ops: Vec<SeqOp> = (0..5).map(|i| SeqOp::Push(100 + i)).collect();
+    ops.push(SeqOp::Resize(8, 7));
+    ops.push(SeqOp::Read);
+    Case { sc: Scenario::CvecSeq(CvecSeqSc { cap: 128, ops }), steered: 0 }
+}
+
+fn stage_for<'a>(rep: &'a Report, kind: Kind, reps: u32) -> St<'a> {
+    St { rep, kind, reps, max_nodes: rep.tier.pick(90, 160) }
+}
+
+pub fn replay(rep: &Report, stage: &str, j: &J) -> i32 {
+    let kind = match stage {
+        "spawn-tree" => Kind::Tree,
+        "rolock" => Kind::RoLock,
+        "cvec" => Kind::Cvec,
+        "pvw" => Kind::Pvw,
+        "notify" => Kind::Notify,
+        _ => return 2,
+    };
+    // the schedule is sampled: give a replay 20x the repetitions of a normal run
+    crate::registry::replay_stage(rep, &stage_for(rep, kind, 60), j)
+}
+
+pub fn run(rep: &Report) {
+    rep.set_rule(
+        "cases = concurrency scenarios decoded from proptest byte strings, each executed `reps` times in a child process (watchdog: all-threads-asleep => deadlock) with spin/yield/sleep perturbations inside our task bodies: \
+         (spawn-tree) pools of 1-16 workers, trees of depth<=6 / fan-out<=8 plus nested-scope chains of 58-84 levels (inline-help limit is 64), node = leaf work | spawn children in the same scope | nested scope (free scope(), pool.scope, scope on a 2nd pool) | blocking wait | panic; oracle: when the outermost scope returns every spawned node has started and finished exactly once, scope panics iff an executed node panics; \
+         (rolock) reader/writer mixes on ReadOptimizedLock<[u64;8]+canary>; (cvec) concurrent push + prefix readers, concurrent resize_with + cell access, sequential push/resize_with/read vs Vec model; (pvw) ranged writes + prefix readers on ParallelVecWriter<u64|Cell<u64>>; (notify) NotificationList rounds, Notification, ResettableOnceLock races. \
+         non-trivial = spawn tree with nesting>=2 (at least one scope opened inside a task) AND more tasks than workers, or a shared-memory scenario with >=2 threads contending (incl. >=1 reallocation under concurrent access); distinct = distinct scenario JSON",
+    );
+    rep.assume("only usages a real caller makes: push||push||read on ConcurrentVec (InternTable), resize_with||resize_with||read (NotificationList), no push/resize_with while the same thread holds a read handle, NotificationList::reset never concurrent with notify, ResettableOnceLock::reset only through &mut, ParallelVecWriter reads limited to the initial prefix or the thread's own completed write");
+    rep.assume("the OS schedule is sampled, not enumerated: absence of a violation is evidence over the sampled interleavings only");
+    rep.assume("sequential ConcurrentVec scenarios are steered away from the known resize_with trigger (counter excluded_known_resize_trigger); one golden case re-demonstrates it");
+    let reps = rep.tier.pick(3, 6);
+    let tree = stage_for(rep, Kind::Tree, reps);
+    let rolock = stage_for(rep, Kind::RoLock, reps);
+    let cvec = stage_for(rep, Kind::Cvec, reps);
+    let pvw = stage_for(rep, Kind::Pvw, reps);
+    let notify = stage_for(rep, Kind::Notify, reps);
+    rep.run_regressions(&tree);
+    rep.run_regressions(&rolock);
+    rep.run_regressions(&cvec);
+    rep.run_regressions(&pvw);
+    rep.run_regressions(&notify);
+    // golden case: push x5; resize_with(8, || 7); read all  (known finding until the repo is repaired)
+    rep.run_one(&cvec, &golden_resize_case());
+    let (nt, nr, nc, np, nn) = match rep.tier {
+        Tier::Quick => (500, 150, 200, 140, 180),
+        Tier::Thorough => (12_000, 2500, 4000, 2500, 3000),
+    };
+    let timed = |name: &str, f: &dyn Fn()| {
+        let t0 = std::time::Instant::now();
+        f();
+        rep.note(format!("stage {name}: {:.1}s wall", t0.elapsed().as_secs_f64()));
+    };
+    timed("spawn-tree", &|| rep.explore(&tree, nt, 700));
+    timed("rolock", &|| rep.explore(&rolock, nr, 120));
+    timed("cvec", &|| rep.explore(&cvec, nc, 300));
+    timed("pvw", &|| rep.explore(&pvw, np, 500));
+    timed("notify", &|| rep.explore(&notify, nn, 400));
+}
+
+// ---------------------------------------------------------------------------
+// child side: executing a scenario
+// ---------------------------------------------------------------------------
+
+use egglog_concurrency::parallel_writer::write_cell_slice;
+use egglog_concurrency::{ConcurrentVec, Notification, NotificationList, ParallelVecWriter, ReadOptimizedLock, ResettableOnceLock, Scope, ThreadPool};
+use std::cell::Cell;
+use std::panic::{catch_unwind, AssertUnwindSafe};
+
+const PLANNED: &str = "c19-planned-panic:";
+
+static CHILD_FAILED: AtomicBool = AtomicBool::new(false);
+static UNEXPECTED_PANICS: AtomicUsize = AtomicUsize::new(0);
+static FIRST_UNEXPECTED: Mutex<String> = Mutex::new(String::new());
+static NEXT_TID: AtomicU64 = AtomicU64::new(1);
+thread_local! {
+    static MY_TID: u64 = NEXT_TID.fetch_add(1, Ordering::Relaxed);
+}
+fn my_tid() -> u64 {
+    MY_TID.with(|t| *t)
+}
+
+/// Report a failure and leave the process at once: after a broken scope / lock the
+/// process state cannot be trusted (tasks may still run on a dead stack frame).
+fn fail(sig: &str, detail: String) -> ! {
+    if CHILD_FAILED.swap(true, Ordering::SeqCst) {
+        loop {
+            std::thread::sleep(Duration::from_millis(50));
+        }
+    }
+    println!("{}", json!({"ok": false, "sig": sig, "detail": detail}));
+    std::process::exit(0)
+}
+
+fn install_child_hook() {
+    std::panic::set_hook(Box::new(|info| {
+        let msg = if let Some(s) = info.payload().downcast_ref::<&str>() {
+            s.to_string()
+        } else if let Some(s) = info.payload().downcast_ref::<String>() {
+            s.clone()
+        } else {
+            "<non-string panic>".to_string()
+        };
+        if msg.starts_with(PLANNED) {
+            return;
+        }
+        let loc = info.location().map(|l| format!("{}:{}", l.file(), l.line())).unwrap_or_default();
+        let full = format!("{msg} @ {loc}");
+        eprintln!("unexpected panic: {full}");
+        if UNEXPECTED_PANICS.fetch_add(1, Ordering::SeqCst) == 0 {
+            *FIRST_UNEXPECTED.lock().unwrap_or_else(|e| e.into_inner()) = full;
+        }
+    }));
+}
+
+fn check_no_unexpected_panic(kind: &str) {
+    if UNEXPECTED_PANICS.load(Ordering::SeqCst) > 0 {
+        let m = FIRST_UNEXPECTED.lock().unwrap_or_else(|e| e.into_inner()).clone();
+        fail(&format!("unexpected-panic:{kind}:{}", crate::fw::panic_key(&m)), format!("a thread panicked with a message that is not one of the scenario's planned panics: {m}"));
+    }
+}
+
+fn payload_msg(e: &Box<dyn std::any::Any + Send>) -> String {
+    if let Some(s) = e.downcast_ref::<&str>() {
+        s.to_string()
+    } else if let Some(s) = e.downcast_ref::<String>() {
+        s.clone()
+    } else {
+        "<non-string panic>".to_string()
+    }
+}
+
+#[inline(never)]
+fn perturb(p: Pt) {
+    match p {
+        Pt::N => {}
+        Pt::Spin(n) => {
+            for i in 0..n {
+                std::hint::black_box(i);
+                std::hint::spin_loop();
+            }
+        }
+        Pt::Yield => std::thread::yield_now(),
+        Pt::Sleep(us) => std::thread::sleep(Duration::from_micros(us as u64)),
+    }
+}
+
+/// run `f` on `n` threads (index passed), all released together; a panic in a thread is a failure
+fn on_threads(kind: &str, n: usize, f: impl Fn(usize) + Sync) {
+    let bar = Barrier::new(n);
+    std::thread::scope(|sc| {
+        for i in 0..n {
+            let (f, bar) = (&f, &bar);
+            sc.spawn(move || {
+                bar.wait();
+                if let Err(e) = catch_unwind(AssertUnwindSafe(|| f(i))) {
+                    let m = payload_msg(&e);
+                    let first = FIRST_UNEXPECTED.lock().unwrap_or_else(|e| e.into_inner()).clone();
+                    fail(&format!("panic:{kind}:{}", squash(&m)), format!("thread {i} of the scenario panicked: {m} (first unexpected panic of the process: {first})"));
+                }
+            });
+        }
+    });
+}
+
+type Stats = BTreeMap<String, u64>;
+fn bump(st: &mut Stats, k: &str, n: u64) {
+    *st.entry(k.to_string()).or_insert(0) += n;
+}
+
+// ----- spawn trees ----------------------------------------------------------
+
+struct Pools {
+    main: ThreadPool,
+    other: Option<ThreadPool>,
+}
+
+struct Ctx {
+    nodes: Vec<TNode>,
+    parent: Vec<Option<usize>>,
+    started: Vec<AtomicU32>,
+    finished: Vec<AtomicU32>,
+    tids: Vec<AtomicU64>,
+}
+
+struct Fin<'a>(&'a AtomicU32);
+impl Drop for Fin<'_> {
+    fn drop(&mut self) {
+        self.0.fetch_add(1, Ordering::SeqCst);
+    }
+}
+
+fn spawn_kids<'s>(id: usize, ctx: &'static Ctx, pools: &'s Pools, s: &Scope<'s>) {
+    for &k in &ctx.nodes[id].kids {
+        let k = k as usize;
+        s.spawn(move |s2| run_node(k, ctx, pools, s2));
+    }
+}
+
+fn run_node<'s>(id: usize, ctx: &'static Ctx, pools: &'s Pools, s: &Scope<'s>) {
+    let n = &ctx.nodes[id];
+    ctx.started[id].fetch_add(1, Ordering::SeqCst);
+    ctx.tids[id].store(my_tid(), Ordering::Relaxed);
+    // `finished` is bumped when the body is left, normally or by unwinding
+    let _fin = Fin(&ctx.finished[id]);
+    if n.wp {
+        if let Some(p) = ctx.parent[id] {
+            // blocking wait inside a worker: the parent is Mode::Same, already running, and never waits
+            while ctx.finished[p].load(Ordering::SeqCst) == 0 {
+                std::thread::sleep(Duration::from_micros(20));
+            }
+        }
+    }
+    perturb(n.pre);
+    if n.panic == PanicAt::Before {
+        panic!("{PLANNED}{id}");
+    }
+    match n.mode {
+        Mode::Same => spawn_kids(id, ctx, pools, s),
+        Mode::NestFree => egglog_concurrency::scope(|s2| spawn_kids(id, ctx, pools, s2)),
+        Mode::NestPool => pools.main.scope(|s2| spawn_kids(id, ctx, pools, s2)),
+        Mode::NestOther => match &pools.other {
+            Some(o) => o.scope(|s2| spawn_kids(id, ctx, pools, s2)),
+            None => pools.main.scope(|s2| spawn_kids(id, ctx, pools, s2)),
+        },
+    }
+    perturb(n.post);
+    if n.panic == PanicAt::After {
+        panic!("{PLANNED}{id}");
+    }
+}
+
+fn exec_tree(t: &TreeSc, reps: u32, st: &mut Stats) {
+    let facts = tree_facts(t);
+    let n = t.nodes.len();
+    let mut pools: Option<Pools> = None;
+    let mut ctxs: Vec<&'static Ctx> = vec![];
+    let pool_threads = t.workers as usize + t.other as usize;
+    for r in 0..reps {
+        if pools.is_none() || !t.reuse {
+            drop(pools.take()); // joins the workers of the previous repetition
+            pools = Some(Pools { main: ThreadPool::new(t.workers as usize), other: (t.other > 0).then(|| ThreadPool::new(t.other as usize)) });
+        }
+        let ctx: &'static Ctx = Box::leak(Box::new(Ctx {
+            nodes: t.nodes.clone(),
+            parent: facts.parent.clone(),
+            started: (0..n).map(|_| AtomicU32::new(0)).collect(),
+            finished: (0..n).map(|_| AtomicU32::new(0)).collect(),
+            tids: (0..n).map(|_| AtomicU64::new(0)).collect(),
+        }));
+        let p = pools.as_ref().unwrap();
+        let res = catch_unwind(AssertUnwindSafe(|| {
+            if t.via_install {
+                p.main.install(|| egglog_concurrency::scope(|s| run_node(0, ctx, p, s)))
+            } else {
+                p.main.scope(|s| run_node(0, ctx, p, s))
+            }
+        }));
+        // the instant the outermost scope has returned: snapshot before anything else
+        let fin: Vec<u32> = ctx.finished.iter().map(|a| a.load(Ordering::SeqCst)).collect();
+        let sta: Vec<u32> = ctx.started.iter().map(|a| a.load(Ordering::SeqCst)).collect();
+        for i in 0..n {
+            let want = facts.exec[i] as u32;
+            if sta[i] != want || fin[i] != want {
+                let what = if want == 1 && (sta[i] == 0 || fin[i] == 0) {
+                    ("scope-returned-before-task-finished", format!("task {i} was spawned (transitively) in the scope but had started {} / finished {} times when the outermost scope returned", sta[i], fin[i]))
+                } else if want == 1 {
+                    ("task-ran-more-than-once", format!("task {i} had started {} / finished {} times when the outermost scope returned", sta[i], fin[i]))
+                } else {
+                    ("unspawned-task-ran", format!("task {i} is never spawned (its parent panics first) but started {} times", sta[i]))
+                };
+                fail(what.0, format!("repetition {r}: {}; pool workers={} tasks={} nesting={}", what.1, t.workers, facts.tasks, facts.nesting));
+            }
+        }
+        match &res {
+            Ok(()) => {
+                if facts.expect_panic {
+                    fail("task-panic-not-propagated", format!("repetition {r}: a task of the tree panics, but the outermost scope call returned normally (workers={}, nesting={})", t.workers, facts.nesting));
+                }
+            }
+            Err(e) => {
+                let m = payload_msg(e);
+                let planned = m.strip_prefix(PLANNED).and_then(|x| x.parse::<usize>().ok()).filter(|&i| i < n && facts.exec[i] && t.nodes[i].panic != PanicAt::No);
+                if planned.is_none() {
+                    fail(&format!("scope-panicked-unexpectedly:{}", squash(&m)), format!("repetition {r}: the outermost scope call panicked with `{m}`, which is not the payload of a panicking task of this tree (tree has planned panic: {})", facts.expect_panic));
+                }
+            }
+        }
+        check_no_unexpected_panic("spawn-tree");
+        let tids: BTreeSet<u64> = (0..n).filter(|&i| facts.exec[i]).map(|i| ctx.tids[i].load(Ordering::Relaxed)).collect();
+        if tids.len() > pool_threads + 1 {
+            bump(st, "class:tree:ran-on-backup-worker", 1);
+        }
+        bump(st, "tree_scopes_completed", 1);
+        ctxs.push(ctx);
+    }
+    drop(pools); // joins all workers: nothing can run any more
+    for (r, ctx) in ctxs.iter().enumerate() {
+        for i in 0..n {
+            let (s, f) = (ctx.started[i].load(Ordering::SeqCst), ctx.finished[i].load(Ordering::SeqCst));
+            if s != facts.exec[i] as u32 || f != facts.exec[i] as u32 {
+                fail("task-ran-after-scope-returned", format!("repetition {r}: after the pool was dropped task {i} had started {s} / finished {f} times (expected {})", facts.exec[i] as u32));
+            }
+        }
+    }
+    check_no_unexpected_panic("spawn-tree");
+}
+
+// ----- ReadOptimizedLock ----------------------------------------------------
+
+struct Rec {
+    words: [u64; 8],
+    canary: u64,
+}
+
+fn exec_rolock(sc: &RoLockSc, reps: u32, st: &mut Stats) {
+    for r in 0..reps {
+        let lock = ReadOptimizedLock::new(Rec { words: [0; 8], canary: 0 });
+        let writes_done = AtomicU64::new(0);
+        let reads_done = AtomicU64::new(0);
+        on_threads("rolock", sc.threads.len(), |ti| {
+            let t = &sc.threads[ti];
+            let mut last_seen = 0u64;
+            for it in 0..t.iters as u32 {
+                let is_write = t.write_every > 0 && (it + 1) % t.write_every as u32 == 0;
+                if is_write {
+                    let mut g = lock.lock();
+                    let p: *mut Rec = &mut *g;
+                    // SAFETY: p comes from the exclusive guard; volatile so the plain accesses are really performed
+                    unsafe {
+                        let c = std::ptr::read_volatile(&raw const (*p).canary);
+                        if c != 0 {
+                            fail("rolock-writers-overlap", format!("repetition {r}: thread {ti} obtained the write guard while another writer was inside its critical section (canary={c})"));
+                        }
+                        std::ptr::write_volatile(&raw mut (*p).canary, ti as u64 + 1);
+                        let g0 = std::ptr::read_volatile(&raw const (*p).words[0]);
+                        for w in 0..8 {
+                            let cur = std::ptr::read_volatile(&raw const (*p).words[w]);
+                            if cur != g0 {
+                                fail("rolock-writers-overlap", format!("repetition {r}: writer {ti} found a half-written record inside its write guard (word0={g0}, word{w}={cur})"));
+                            }
+                            std::ptr::write_volatile(&raw mut (*p).words[w], g0 + 1);
+                            if w == 0 || w == 4 {
+                                perturb(t.hold);
+                            }
+                        }
+                        let c = std::ptr::read_volatile(&raw const (*p).canary);
+                        if c != ti as u64 + 1 {
+                            fail("rolock-writers-overlap", format!("repetition {r}: writer {ti}'s canary was overwritten inside its critical section (canary={c})"));
+                        }
+                        std::ptr::write_volatile(&raw mut (*p).canary, 0);
+                        last_seen = g0 + 1;
+                    }
+                    drop(g);
+                    writes_done.fetch_add(1, Ordering::Relaxed);
+                } else {
+                    let g = lock.read();
+                    let p: *const Rec = &*g;
+                    // SAFETY: p comes from the shared guard
+                    unsafe {
+                        let w0 = std::ptr::read_volatile(&raw const (*p).words[0]);
+                        for w in 1..8 {
+                            if w == 1 || w == 5 {
+                                perturb(t.hold);
+                            }
+                            let cur = std::ptr::read_volatile(&raw const (*p).words[w]);
+                            if cur != w0 {
+                                fail("rolock-reader-saw-partial-write", format!("repetition {r}: reader {ti} holding a read guard saw word0={w0} but word{w}={cur} (a writer's update is visible half-way)"));
+                            }
+                        }
+                        let c = std::ptr::read_volatile(&raw const (*p).canary);
+                        if c != 0 {
+                            fail("rolock-reader-saw-partial-write", format!("repetition {r}: reader {ti} holding a read guard saw a writer inside its critical section (canary={c})"));
+                        }
+                        if w0 < last_seen {
+                            fail("rolock-stale-read", format!("repetition {r}: thread {ti} read generation {w0} after it had already observed generation {last_seen}"));
+                        }
+                        last_seen = w0;
+                    }
+                    drop(g);
+                    reads_done.fetch_add(1, Ordering::Relaxed);
+                }
+                perturb(t.gap);
+            }
+        });
+        let rec = lock.into_inner();
+        let w = writes_done.load(Ordering::SeqCst);
+        if rec.words.iter().any(|x| *x != w) || rec.canary != 0 {
+            fail("rolock-lost-update", format!("repetition {r}: {w} write sections completed, final record is {:?} canary={}", rec.words, rec.canary));
+        }
+        bump(st, "rolock_writes", w);
+        bump(st, "rolock_reads", reads_done.load(Ordering::SeqCst));
+    }
+    check_no_unexpected_panic("rolock");
+}
+
+// ----- ConcurrentVec --------------------------------------------------------
+
+#[derive(Clone, Copy, PartialEq, Debug)]
+struct It {
+    id: u64,
+    inv: u64,
+    tag: u64,
+    magic: u64,
+}
+const MAGIC: u64 = 0xC19C_19C1_9C19_C19C;
+impl It {
+    fn mk(thread: usize, seq: usize) -> It {
+        let id = ((thread as u64 + 1) << 32) | seq as u64;
+        It { id, inv: !id, tag: id.wrapping_mul(0x9E37_79B9_7F4A_7C15) ^ MAGIC, magic: MAGIC }
+    }
+    fn ok(&self) -> bool {
+        self.inv == !self.id && self.tag == self.id.wrapping_mul(0x9E37_79B9_7F4A_7C15) ^ MAGIC && self.magic == MAGIC
+    }
+    fn thread(&self) -> usize {
+        (self.id >> 32) as usize - 1
+    }
+    fn seq(&self) -> usize {
+        (self.id & 0xffff_ffff) as usize
+    }
+}
+
+fn exec_cvec_push(sc: &CvecPushSc, reps: u32, st: &mut Stats) {
+    let np = sc.pushers.len();
+    let total: usize = sc.pushers.iter().map(|p| p.n as usize).sum();
+    for r in 0..reps {
+        let v: ConcurrentVec<It> = ConcurrentVec::with_capacity(sc.cap as usize);
+        let done = AtomicUsize::new(0);
+        let indices: Vec<Mutex<Vec<usize>>> = (0..np).map(|_| Mutex::new(vec![])).collect();
+        let prefix_checks = AtomicU64::new(0);
+        on_threads("cvec-push", np + sc.readers as usize, |ti| {
+            if ti < np {
+                let p = &sc.pushers[ti];
+                let mut mine = Vec::with_capacity(p.n as usize);
+                for s in 0..p.n as usize {
+                    let item = It::mk(ti, s);
+                    let idx = v.push(item);
+                    if let Some(&prev) = mine.last() {
+                        if idx <= prev {
+                            fail("cvec-push-index-not-increasing", format!("repetition {r}: pusher {ti} got index {idx} after index {prev}"));
+                        }
+                    }
+                    mine.push(idx);
+                    if p.verify {
+                        let g = v.read();
+                        if g.len() <= idx || g[idx] != item {
+                            fail("cvec-pushed-item-not-visible", format!("repetition {r}: push returned index {idx} but read() has len {} / slot {:?}, expected {:?}", g.len(), g.get(idx), item));
+                        }
+                    }
+                    perturb(p.gap);
+                }
+                *indices[ti].lock().unwrap() = mine;
+                done.fetch_add(1, Ordering::SeqCst);
+            } else {
+                let mut last_len = 0usize;
+                let mut k = ti as u64;
+                loop {
+                    let finished = done.load(Ordering::SeqCst) == np;
+                    {
+                        let g = v.read();
+                        let n = g.len();
+                        if n < last_len {
+                            fail("cvec-prefix-shrank", format!("repetition {r}: reader saw length {n} after length {last_len}"));
+                        }
+                        last_len = n;
+                        // newest slots (the race window) plus one sampled older slot
+                        for i in n.saturating_sub(3)..n {
+                            if !g[i].ok() {
+                                fail("cvec-reader-saw-unwritten-slot", format!("repetition {r}: read() exposes {n} items but slot {i} holds {:?}, not a pushed item", g[i]));
+                            }
+                        }
+                        if n > 0 {
+                            k = k.wrapping_mul(6364136223846793005).wrapping_add(1442695040888963407);
+                            let i = (k >> 33) as usize % n;
+                            if !g[i].ok() {
+                                fail("cvec-reader-saw-unwritten-slot", format!("repetition {r}: read() exposes {n} items but slot {i} holds {:?}, not a pushed item", g[i]));
+                            }
+                        }
+                    }
+                    prefix_checks.fetch_add(1, Ordering::Relaxed);
+                    if finished {
+                        break;
+                    }
+                    perturb(sc.reader_gap);
+                }
+            }
+        });
+        let g = v.read();
+        if g.len() != total {
+            fail("cvec-push-lost-or-extra", format!("repetition {r}: {total} items pushed, read() has {}", g.len()));
+        }
+        let mut next_seq = vec![0usize; np];
+        for (i, it) in g.iter().enumerate() {
+            if !it.ok() || it.thread() >= np {
+                fail("cvec-item-corrupt", format!("repetition {r}: slot {i} holds {it:?} after all pushers joined"));
+            }
+            let t = it.thread();
+            if it.seq() != next_seq[t] {
+                fail("cvec-push-lost-or-duplicated", format!("repetition {r}: slot {i} holds item #{} of pusher {t}, expected its item #{}", it.seq(), next_seq[t]));
+            }
+            next_seq[t] += 1;
+        }
+        for t in 0..np {
+            let mine = indices[t].lock().unwrap();
+            if next_seq[t] != sc.pushers[t].n as usize {
+                fail("cvec-push-lost-or-duplicated", format!("repetition {r}: pusher {t} pushed {} items, {} present", sc.pushers[t].n, next_seq[t]));
+            }
+            for (s, &idx) in mine.iter().enumerate() {
+                if g[idx] != It::mk(t, s) {
+                    fail("cvec-push-index-wrong", format!("repetition {r}: push of item #{s} by pusher {t} returned index {idx}, which holds {:?}", g[idx]));
+                }
+            }
+        }
+        bump(st, "cvec_items_pushed", total as u64);
+        bump(st, "cvec_prefix_checks", prefix_checks.load(Ordering::SeqCst));
+    }
+    check_no_unexpected_panic("cvec-push");
+}
+
+fn exec_cvec_cells(sc: &CvecCellsSc, reps: u32, st: &mut Stats) {
+    let mut want: BTreeMap<usize, u64> = BTreeMap::new();
+    for t in &sc.threads {
+        for &i in t {
+            *want.entry(i as usize).or_insert(0) += 1;
+        }
+    }
+    let want_len = want.keys().next_back().map(|m| m + 1).unwrap_or(0);
+    for r in 0..reps {
+        let v: ConcurrentVec<AtomicU64> = if sc.cap == 0 { ConcurrentVec::new() } else { ConcurrentVec::with_capacity(sc.cap as usize) };
+        on_threads("cvec-cells", sc.threads.len(), |ti| {
+            for &i in &sc.threads[ti] {
+                let i = i as usize;
+                // NotificationList::notify: resize_with(index + 1, default), then read()[index]
+                v.resize_with(i + 1, AtomicU64::default);
+                {
+                    let g = v.read();
+                    if g.len() <= i {
+                        fail("cvec-resize-not-visible", format!("repetition {r}: after resize_with({}) read() has only {} slots", i + 1, g.len()));
+                    }
+                    g[i].fetch_add(1, Ordering::Relaxed);
+                }
+                perturb(sc.gap);
+            }
+        });
+        let g = v.read();
+        if g.len() != want_len {
+            fail("cvec-resize-length-wrong", format!("repetition {r}: largest resize_with target {want_len}, read() has {} slots", g.len()));
+        }
+        for (i, c) in g.iter().enumerate() {
+            let got = c.load(Ordering::SeqCst);
+            let w = want.get(&i).copied().unwrap_or(0);
+            if got != w {
+                fail("cvec-resize-cell-lost-or-garbage", format!("repetition {r}: cell {i} was incremented {w} times through read()[{i}] but holds {got} (a slot was re-initialised, lost or never initialised)"));
+            }
+        }
+        bump(st, "cvec_cell_ops", want.values().sum());
+    }
+    check_no_unexpected_panic("cvec-cells");
+}
+
+fn exec_cvec_seq(sc: &CvecSeqSc, reps: u32, st: &mut Stats) {
+    let trig = seq_triggers(&sc.ops);
+    for r in 0..reps {
+        let v: ConcurrentVec<u64> = ConcurrentVec::with_capacity(sc.cap as usize);
+        let mut model: Vec<u64> = vec![];
+        // for each model slot: index of the op that created it, and whether that op is a resize_with hitting the known trigger
+        let mut origin: Vec<usize> = vec![];
+        for (oi, op) in sc.ops.iter().enumerate() {
+            match *op {
+                SeqOp::Push(x) => {
+                    let idx = v.push(x);
+                    if idx != model.len() {
+                        fail("cvec-push-index-wrong", format!("repetition {r}: op #{oi} push returned {idx}, expected {}", model.len()));
+                    }
+                    model.push(x);
+                    origin.push(oi);
+                }
+                SeqOp::Resize(n, fill) => {
+                    v.resize_with(n as usize, || fill);
+                    while model.len() < n as usize {
+                        model.push(fill);
+                        origin.push(oi);
+                    }
+                }
+                SeqOp::Read => {
+                    let g = v.read();
+                    if g.len() != model.len() {
+                        fail("cvec-seq-length-wrong", format!("repetition {r}: op #{oi}: read() has {} slots, model has {}", g.len(), model.len()));
+                    }
+                    for i in 0..model.len() {
+                        if g[i] != model[i] {
+                            let by = origin[i];
+                            let got: Vec<String> = g.iter().map(|x| format!("{x:#x}")).collect();
+                            let detail = format!(
+                                "repetition {r}: ops {:?}: read() = [{}], expected {:?}: slot {i} (created by op #{by} {:?}) holds {:#x} instead of {}",
+                                sc.ops,
+                                got.join(", "),
+                                model,
+                                sc.ops[by],
+                                g[i],
+                                model[i]
+                            );
+                            if matches!(sc.ops[by], SeqOp::Resize(..)) && trig[by] {
+                                fail(KNOWN_RESIZE_SIG, detail);
+                            } else if matches!(sc.ops[by], SeqOp::Resize(..)) {
+                                fail("cvec-resize-with-slot-wrong(outside-known-trigger)", detail);
+                            } else {
+                                fail("cvec-pushed-value-changed", detail);
+                            }
+                        }
+                    }
+                    bump(st, "cvec_seq_reads", 1);
+                }
+            }
+        }
+    }
+    check_no_unexpected_panic("cvec-seq");
+}
+
+// ----- ParallelVecWriter ----------------------------------------------------
+
+trait PvwElem: Sized + Send {
+    fn mk(v: u64) -> Self;
+    fn val(&self) -> u64;
+    fn write(w: &ParallelVecWriter<Self>, items: Vec<u64>, iter: bool) -> usize;
+}
+impl PvwElem for u64 {
+    fn mk(v: u64) -> u64 {
+        v
+    }
+    fn val(&self) -> u64 {
+        *self
+    }
+    fn write(w: &ParallelVecWriter<u64>, items: Vec<u64>, iter: bool) -> usize {
+        if iter { w.write_contents(items.into_iter()) } else { w.write_slice(&items) }
+    }
+}
+impl PvwElem for Cell<u64> {
+    fn mk(v: u64) -> Cell<u64> {
+        Cell::new(v)
+    }
+    fn val(&self) -> u64 {
+        self.get()
+    }
+    fn write(w: &ParallelVecWriter<Cell<u64>>, items: Vec<u64>, iter: bool) -> usize {
+        let cells: Vec<Cell<u64>> = items.into_iter().map(Cell::new).collect();
+        if iter { w.write_contents(cells.into_iter()) } else { write_cell_slice(w, &cells) }
+    }
+}
+
+const PREFIX_TAG: u64 = 0xF00D << 48;
+fn pvw_val(thread: usize, write: usize, off: usize) -> u64 {
+    ((thread as u64 + 1) << 40) | ((write as u64) << 16) | off as u64
+}
+
+fn exec_pvw<E: PvwElem>(sc: &PvwSc, reps: u32, st: &mut Stats) {
+    let nw = sc.writers.len();
+    let prefix = sc.prefix as usize;
+    let total: usize = sc.writers.iter().flatten().map(|w| w.len as usize).sum();
+    for r in 0..reps {
+        let mut init: Vec<E> = Vec::with_capacity(prefix + sc.extra_cap as usize);
+        for i in 0..prefix {
+            init.push(E::mk(PREFIX_TAG | i as u64));
+        }
+        let w: ParallelVecWriter<E> = ParallelVecWriter::new(init);
+        let done = AtomicUsize::new(0);
+        let starts: Vec<Mutex<Vec<usize>>> = (0..nw).map(|_| Mutex::new(vec![])).collect();
+        on_threads("pvw", nw + sc.readers as usize, |ti| {
+            if ti < nw {
+                let mut mine = vec![];
+                for (wi, wr) in sc.writers[ti].iter().enumerate() {
+                    let len = wr.len as usize;
+                    let items: Vec<u64> = (0..len).map(|o| pvw_val(ti, wi, o)).collect();
+                    let start = E::write(&w, items, wr.iter);
+                    if start < prefix {
+                        fail("pvw-write-overlaps-prefix", format!("repetition {r}: write #{wi} of writer {ti} was placed at {start}, inside the initial prefix of {prefix}"));
+                    }
+                    mine.push(start);
+                    if sc.verify_own && len > 0 {
+                        let ra = w.unsafe_read_access();
+                        // SAFETY: the range is covered by this thread's completed write (the documented contract)
+                        let sl = unsafe { ra.get_unchecked_slice(start..start + len) };
+                        for (o, e) in sl.iter().enumerate() {
+                            if e.val() != pvw_val(ti, wi, o) {
+                                fail("pvw-own-write-not-readable", format!("repetition {r}: writer {ti} reads back its completed write #{wi} at {start}+{o}: {:#x}, expected {:#x}", e.val(), pvw_val(ti, wi, o)));
+                            }
+                        }
+                    }
+                    perturb(sc.gap);
+                }
+                *starts[ti].lock().unwrap() = mine;
+                done.fetch_add(1, Ordering::SeqCst);
+            } else {
+                if prefix == 0 {
+                    return;
+                }
+                let mut k = ti as u64 + 77;
+                loop {
+                    let finished = done.load(Ordering::SeqCst) == nw;
+                    k = k.wrapping_mul(6364136223846793005).wrapping_add(1442695040888963407);
+                    let i = (k >> 33) as usize % prefix;
+                    let got = match k % 3 {
+                        0 => w.with_index(i, |e| e.val()),
+                        1 => w.with_slice(i..prefix, |s| s[0].val()),
+                        _ => {
+                            let g = w.read_access();
+                            if g.len() != prefix {
+                                fail("pvw-prefix-length-changed", format!("repetition {r}: read_access() has {} elements, the initial vector had {prefix}", g.len()));
+                            }
+                            g[i].val()
+                        }
+                    };
+                    if got != PREFIX_TAG | i as u64 {
+                        fail("pvw-prefix-corrupt", format!("repetition {r}: prefix element {i} reads {got:#x} while writers are appending"));
+                    }
+                    if finished {
+                        break;
+                    }
+                    std::hint::spin_loop();
+                }
+            }
+        });
+        let v = w.finish();
+        if v.len() != prefix + total {
+            fail("pvw-length-wrong", format!("repetition {r}: prefix {prefix} + {total} written elements, finish() has {}", v.len()));
+        }
+        for i in 0..prefix {
+            if v[i].val() != PREFIX_TAG | i as u64 {
+                fail("pvw-prefix-corrupt", format!("repetition {r}: prefix element {i} is {:#x} after finish()", v[i].val()));
+            }
+        }
+        let mut covered = vec![false; v.len()];
+        for t in 0..nw {
+            let mine = starts[t].lock().unwrap();
+            for (wi, wr) in sc.writers[t].iter().enumerate() {
+                let start = mine[wi];
+                for o in 0..wr.len as usize {
+                    let at = start + o;
+                    if at >= v.len() || v[at].val() != pvw_val(t, wi, o) || covered[at] {
+                        fail(
+                            "pvw-written-item-lost-or-corrupt",
+                            format!("repetition {r}: write #{wi} of writer {t} (len {}, start {start}): element {o} at {at} is {:?}, expected {:#x}", wr.len, v.get(at).map(|e| e.val()), pvw_val(t, wi, o)),
+                        );
+                    }
+                    covered[at] = true;
+                }
+            }
+        }
+        if covered[prefix..].iter().any(|c| !c) {
+            fail("pvw-hole-in-output", format!("repetition {r}: finish() contains elements that no write produced"));
+        }
+        bump(st, "pvw_elements_written", total as u64);
+    }
+    check_no_unexpected_panic("pvw");
+}
+
+// ----- NotificationList / Notification / ResettableOnceLock ------------------
+
+fn exec_nlist(sc: &NListSc, reps: u32, st: &mut Stats) {
+    let nt = sc.rounds.iter().map(|r| r.len()).max().unwrap_or(0);
+    let nr = sc.rounds.len();
+    for r in 0..reps {
+        let list: NotificationList<usize> = NotificationList::default();
+        // round protocol: main publishes `go = round+1`, workers notify, bump `arrived`; main resets in between
+        let go = AtomicUsize::new(0);
+        let arrived = AtomicUsize::new(0);
+        let handles: Vec<NotificationList<usize>> = (0..nt).map(|_| list.clone()).collect();
+        // thread nt is the coordinator (calls reset between rounds, never concurrently with notify)
+        on_threads("nlist", nt + 1, |ti| {
+            if ti < nt {
+                for ri in 0..nr {
+                    while go.load(Ordering::Acquire) < ri + 1 {
+                        std::hint::spin_loop();
+                        std::thread::yield_now();
+                    }
+                    if let Some(ids) = sc.rounds[ri].get(ti) {
+                        for &id in ids {
+                            handles[ti].notify(id as usize);
+                            perturb(sc.gap);
+                        }
+                    }
+                    arrived.fetch_add(1, Ordering::AcqRel);
+                }
+            } else {
+                for (ri, round) in sc.rounds.iter().enumerate() {
+                    go.store(ri + 1, Ordering::Release);
+                    while arrived.load(Ordering::Acquire) < (ri + 1) * nt {
+                        std::thread::yield_now();
+                    }
+                    let want: BTreeSet<usize> = round.iter().flatten().map(|x| *x as usize).collect();
+                    let got_v: Vec<usize> = list.reset().into_iter().collect();
+                    let got: BTreeSet<usize> = got_v.iter().copied().collect();
+                    if got.len() != got_v.len() {
+                        fail("nlist-reset-duplicate-id", format!("repetition {r} round {ri}: reset() returned {got_v:?} (an id twice) for notified set {want:?}, without any reset concurrent to notify"));
+                    }
+                    if got != want {
+                        let missing: Vec<_> = want.difference(&got).collect();
+                        let extra: Vec<_> = got.difference(&want).collect();
+                        fail("nlist-reset-wrong-set", format!("repetition {r} round {ri}: notified ids missing from reset(): {missing:?}; ids returned but not notified in this round: {extra:?}"));
+                    }
+                }
+            }
+        });
+        let again = list.reset();
+        if !again.is_empty() {
+            fail("nlist-reset-wrong-set", format!("repetition {r}: a second reset() without notifications returned {:?}", again.to_vec()));
+        }
+        bump(st, "nlist_rounds", nr as u64);
+    }
+    check_no_unexpected_panic("nlist");
+}
+
+fn exec_notif(sc: &NotifSc, reps: u32, st: &mut Stats) {
+    let nw = sc.waiters.len();
+    for r in 0..reps {
+        let n = Notification::new();
+        let data = AtomicU64::new(0);
+        if n.has_been_notified() || n.wait_with_timeout(Duration::from_millis(1)) {
+            fail("notification-fresh-is-notified", format!("repetition {r}: a fresh Notification reports notified"));
+        }
+        on_threads("notification", nw + sc.notifiers as usize, |ti| {
+            if ti < nw {
+                if sc.waiters[ti] {
+                    if !n.wait_with_timeout(Duration::from_secs(60)) {
+                        fail("notification-wait-timed-out", format!("repetition {r}: wait_with_timeout(60s) returned false although notify() is called"));
+                    }
+                } else {
+                    n.wait();
+                }
+                let d = data.load(Ordering::Relaxed);
+                if d != 42 || !n.has_been_notified() {
+                    fail("notification-wait-returned-early", format!("repetition {r}: waiter {ti} returned from wait with data={d} (written before notify()) / has_been_notified={}", n.has_been_notified()));
+                }
+            } else {
+                perturb(sc.delay);
+                data.store(42, Ordering::Relaxed);
+                n.notify();
+            }
+        });
+        if !n.has_been_notified() {
+            fail("notification-lost", format!("repetition {r}: has_been_notified() is false after notify()"));
+        }
+        n.wait();
+        bump(st, "notification_waits", nw as u64);
+    }
+    check_no_unexpected_panic("notification");
+}
+
+struct Pair {
+    a: u64,
+    b: u64,
+}
+
+fn exec_once(sc: &OnceSc, reps: u32, st: &mut Stats) {
+    let nu = sc.updaters as usize;
+    let ng = sc.getters as usize;
+    for r in 0..reps {
+        let mut lock = ResettableOnceLock::new(Pair { a: 0, b: 0 });
+        for ep in 1..=sc.epochs as u64 {
+            if lock.get().is_some() {
+                fail("oncelock-get-before-update", format!("repetition {r} epoch {ep}: get() returns a value before any get_or_update (fresh / after reset)"));
+            }
+            let updates = AtomicU64::new(0);
+            let seen: Vec<AtomicU64> = (0..nu).map(|_| AtomicU64::new(0)).collect();
+            let updated = AtomicUsize::new(0);
+            {
+                let lock = &lock;
+                on_threads("oncelock", nu + ng, |ti| {
+                    if ti < nu {
+                        let v = lock.get_or_update(|p| {
+                            updates.fetch_add(1, Ordering::SeqCst);
+                            let val = ep * 1000 + ti as u64 + 1;
+                            // SAFETY: plain two-step update of the protected value, volatile so it is not fused
+                            unsafe {
+                                std::ptr::write_volatile(&raw mut p.a, val);
+                                perturb(sc.hold);
+                                std::ptr::write_volatile(&raw mut p.b, val);
+                            }
+                        });
+                        let (a, b) = unsafe { (std::ptr::read_volatile(&raw const v.a), std::ptr::read_volatile(&raw const v.b)) };
+                        if a != b || a / 1000 != ep {
+                            fail("oncelock-partial-or-stale-value", format!("repetition {r} epoch {ep}: get_or_update returned a={a} b={b}"));
+                        }
+                        seen[ti].store(a, Ordering::SeqCst);
+                        updated.fetch_add(1, Ordering::SeqCst);
+                    } else {
+                        loop {
+                            let finished = updated.load(Ordering::SeqCst) == nu;
+                            if let Some(v) = lock.get() {
+                                let (a, b) = unsafe { (std::ptr::read_volatile(&raw const v.a), std::ptr::read_volatile(&raw const v.b)) };
+                                if a != b || a / 1000 != ep {
+                                    fail("oncelock-partial-or-stale-value", format!("repetition {r} epoch {ep}: get() returned Some(a={a}, b={b}) while the update was in flight / not from this epoch"));
+                                }
+                            }
+                            if finished {
+                                break;
+                            }
+                            std::hint::spin_loop();
+                        }
+                    }
+                });
+            }
+            let u = updates.load(Ordering::SeqCst);
+            if u != 1 {
+                fail("oncelock-update-ran-not-once", format!("repetition {r} epoch {ep}: {nu} racing get_or_update calls ran the update closure {u} times"));
+            }
+            let vals: BTreeSet<u64> = seen.iter().map(|a| a.load(Ordering::SeqCst)).collect();
+            if vals.len() != 1 {
+                fail("oncelock-inconsistent-value", format!("repetition {r} epoch {ep}: racing get_or_update calls observed different values {vals:?}"));
+            }
+            match lock.get() {
+                Some(p) if vals.contains(&p.a) && p.a == p.b => {}
+                other => fail("oncelock-inconsistent-value", format!("repetition {r} epoch {ep}: get() after the race gives {:?}, racers saw {vals:?}", other.map(|p| (p.a, p.b)))),
+            }
+            lock.reset();
+            bump(st, "oncelock_epochs", 1);
+        }
+    }
+    check_no_unexpected_panic("oncelock");
+}
+
+pub fn child(kind: &str, payload: &J) -> Option<J> {
+    if kind != "c19-scenario" {
+        return None;
+    }
+    let sc: Scenario = match serde_json::from_value(payload["sc"].clone()) {
+        Ok(s) => s,
+        Err(e) => return Some(json!({"error": format!("bad scenario: {e}")})),
+    };
+    let reps = payload["reps"].as_u64().unwrap_or(1) as u32;
+    install_child_hook();
+    let mut st = Stats::new();
+    match &sc {
+        Scenario::Tree(t) => exec_tree(t, reps, &mut st),
+        Scenario::RoLock(s) => exec_rolock(s, reps, &mut st),
+        Scenario::CvecPush(s) => exec_cvec_push(s, reps, &mut st),
+        Scenario::CvecCells(s) => exec_cvec_cells(s, reps, &mut st),
+        Scenario::CvecSeq(s) => exec_cvec_seq(s, reps, &mut st),
+        Scenario::Pvw(s) => {
+            if s.cell {
+                exec_pvw::<Cell<u64>>(s, reps, &mut st)
+            } else {
+                exec_pvw::<u64>(s, reps, &mut st)
+            }
+        }
+        Scenario::NList(s) => exec_nlist(s, reps, &mut st),
+        Scenario::Notif(s) => exec_notif(s, reps, &mut st),
+        Scenario::Once(s) => exec_once(s, reps, &mut st),
+    }
+    Some(json!({"ok": true, "stats": st}))
 }
